@@ -55,6 +55,13 @@ func FuncName(fn *ssa.Function) string {
 	if o := fn.Origin(); o != nil {
 		fn = o
 	}
+	if a, ok := load.FuncAlias[fn]; ok {
+		// a baseline function found in another form (method <-> function): rendered under its baseline name
+		a = strings.TrimPrefix(a, "(")
+		a = strings.TrimPrefix(a, "*")
+		a = strings.Replace(a, ").", ".", 1)
+		return load.Abbrev(a)
+	}
 	if fn.Parent() != nil {
 		// closure: parentName$N
 		name := fn.Name()
@@ -323,6 +330,42 @@ func ConstBool(v ssa.Value) (bool, bool) {
 func IsNil(v ssa.Value) bool {
 	c, ok := Strip(v, false).(*ssa.Const)
 	return ok && c.IsNil()
+}
+
+// IsZero reports whether v is the zero value of its type: nil, a zero constant (go/ssa represents T{} of any
+// type as a constant with a nil value), or a load of a local that is never stored to.
+func IsZero(v ssa.Value) bool {
+	v = Strip(v, false)
+	if c, ok := v.(*ssa.Const); ok {
+		if c.Value == nil {
+			return true
+		}
+		switch c.Value.Kind() {
+		case constant.Bool:
+			return !constant.BoolVal(c.Value)
+		case constant.String:
+			return constant.StringVal(c.Value) == ""
+		case constant.Int, constant.Float:
+			return constant.Sign(c.Value) == 0
+		}
+		return false
+	}
+	if u, ok := v.(*ssa.UnOp); ok && u.Op == token.MUL {
+		if a, ok := u.X.(*ssa.Alloc); ok {
+			for _, r := range *a.Referrers() {
+				switch x := r.(type) {
+				case *ssa.Store:
+					if x.Addr == ssa.Value(a) {
+						return false
+					}
+				case *ssa.FieldAddr, *ssa.IndexAddr, *ssa.Call:
+					return false
+				}
+			}
+			return true
+		}
+	}
+	return false
 }
 
 // IsGlobalLoad reports whether v is a load of package variable name ("L/core.ErrNotAllowed").
